@@ -195,3 +195,14 @@ def bind_call(call: ast.Call, callee: FuncInfo, skip_self: bool = False) -> Opti
     for k in call.keywords:
         out[k.arg] = k.value
     return out
+
+
+
+def bind_like(fi, a, k, names=None):
+    """Arguments of a call of the repository function `fi`, as {parameter name: value}, whether they were passed by position or by keyword
+    (stand-ins for repository functions must accept both spellings)."""
+    params = [p for p in fi.params if p not in ("self", "cls")]
+    out = dict(zip(params, a))
+    for n_, v_ in k.items():
+        out[n_] = v_
+    return out if names is None else [out.get(n_) for n_ in names]
